@@ -1,6 +1,7 @@
 import AlgoVerif.Proofs.C08Total5
 import AlgoVerif.Proofs.C09LeftRecMain
 import AlgoVerif.Proofs.C09LeftFactorPost
+import AlgoVerif.Proofs.C09LeftRecValid
 /-!
 # C09 — normal forms are reached, results pass `Verify()`, inputs are never mutated
 
@@ -12,9 +13,10 @@ Full statement, for every transformation `T` with post-condition `Post_T`:
     ∀ g g', Valid g → Hygienic g → T g = .ok g' → Post_T g g' ∧ Valid g'
 
 Input immutability is not a statement about the functional Model (a function cannot change its argument); it
-is validated on every explored run by the harness (deep clone before, `Equal` after, for the receiver of each
-transformation and for grammars handed to `predictive.BuildParsingTable` and the three LR table
-constructors).
+is validated on every explored run by the harness (a clone and a deep textual rendering taken before the
+call; `Equal` and the rendering compared after it — the rendering because `Clone` shares the production values
+with the original — for the receiver of each transformation and for grammars handed to
+`predictive.BuildParsingTable` and the three LR table constructors).
 
 Proved here, for every grammar, no size bounds:
 
@@ -26,9 +28,13 @@ Proved here, for every grammar, no size bounds:
 * `EliminateCycles` yields no unit production, only reachable symbols, and no derivation `A ⇒⁺ A` — the
   semantic statement, not only the graph test (`C09_cycles_noUnit`, `C09_cycles_allReachable`,
   `C09_cycles_noCycle`);
-* the results of these four transformations pass `Verify()` (`C09_emptyfree_valid`, `C09_singlefree_valid`,
-  `C09_unreachable_valid`, `C09_cycles_valid`) — for ε-, unit- and cycle-elimination under the hypothesis
-  `L(G) ≠ ∅`, which `C09_empty_language_counterexample` shows cannot be dropped for unit-elimination.
+* `ChomskyNormalForm` yields a grammar in Chomsky normal form, strict sense (`C09_cnf_isCNF`), accepted by
+  `IsCNF()` (`C09_cnf_agrees_with_IsCNF`); `EliminateLeftRecursion` yields no left recursion
+  (`C09_leftrecursion_noLeftRecursion`); what `LeftFactor` guarantees is `C09_leftfactoring_*`;
+* every result passes `Verify()`: `C09_emptyfree_valid`, `C09_unreachable_valid`, `C09_leftfactoring_valid`
+  for every valid grammar; `C09_singlefree_valid`, `C09_cycles_valid`, `C09_leftrecursion_valid`,
+  `C09_cnf_valid` under the hypothesis `L(G) ≠ ∅` (decidable: `C08_nonEmpty_iff`), which
+  `C09_empty_language_counterexample` shows cannot be dropped for unit-elimination and everything built on it.
 
 Kernel-checked counterexamples (`decide` on the Model) for what remains a known finding:
 `C09_leftfactor_counterexample`, `C09_empty_language_counterexample`, `C09_fresh_names_counterexample`.
@@ -40,7 +46,7 @@ theorem C09_singlefree_noUnit (g g' : G) (h : elimSingle g = .ok g') : NoUnit g'
   elimSingle_noUnit h
 
 /-- the only ε-production `EliminateEmptyProductions` leaves is `S′ → ε` for a fresh start symbol `S′`
-(different from the input's start symbol, occurring in no body) -/
+(a new name: not a declared non-terminal of the input; occurring in no body) -/
 theorem C09_emptyfree_noEmpty (g g' : G) (hv : Valid g) (h : elimEmpty g = .ok g') :
     NoEmptyExceptFreshStart g g' :=
   elimEmpty_noEmpty h hv.wellFormed
@@ -86,10 +92,10 @@ theorem C09_cycles_noCycle (g g' : G) (hv : Valid g) (h : elimCycles g = .ok g')
   elimCycles_noCycle h hv.wellFormed
 
 /-- the result of `EliminateEmptyProductions` passes `Verify()` (start symbol declared, every non-terminal
-has a production, every symbol declared) -/
-theorem C09_emptyfree_valid (g g' : G) (hv : Valid g) (hl : ∃ w, Language g w) (h : elimEmpty g = .ok g') :
-    Valid g' :=
-  elimEmpty_valid h hv hl
+has a production, every symbol declared) — for every valid grammar, `L(G) = ∅` included: everything the final
+pruning removes is nullable, and the start symbol keeps a production -/
+theorem C09_emptyfree_valid (g g' : G) (hv : Valid g) (h : elimEmpty g = .ok g') : Valid g' :=
+  elimEmpty_valid' h hv
 
 /-- the result of `EliminateSingleProductions` passes `Verify()` when `L(G) ≠ ∅` -/
 theorem C09_singlefree_valid (g g' : G) (hv : Valid g) (hl : ∃ w, Language g w) (h : elimSingle g = .ok g') :
@@ -223,19 +229,15 @@ theorem C09_fresh_names_counterexample :
   decide
 
 /-
-Full statements not proved (checked on every run by the harness' independent analyses and by the
-correspondence of `post` lines between the implementation's result and the Lean decision procedures):
+Not proved (decided on every run by the harness' independent analyses and by the correspondence of `post` lines
+between the implementation's result and the Lean decision procedures):
 
-    theorem C09_valid_T (g g' : G) (hv : Valid g) (hh : Hygienic g) (hne : ∃ w, Language g w)
-        (h : T g = .ok g') : Valid g'          -- for T ∈ {elimLeftRec, leftFactor}
-    theorem C09_leftrec_noLeftRecursion (g g' : G) (hv : Valid g) (hh : Hygienic g)
-        (h : elimLeftRec g = .ok g') : NoLeftRecursion g'
-      -- the ordering invariant of the textbook algorithm: after step i every A_k, k ≤ i, has productions
-      -- starting with a terminal or some A_m, m > k.
-    theorem C09_leftfactor_leftFactored … : false today (C09_leftfactor_counterexample).
     theorem C09_noCycleB_iff (g : G) : noCycleB g = true ↔ NoCycle g
     theorem C09_noLeftRecB_iff (g : G) : noLeftRecB g = true ↔ NoLeftRecursion g
-      -- the two graph analyses decide the semantic statements.
+      -- the two graph analyses the driver prints decide the semantic statements (the theorems above are about
+      -- the semantic statements themselves).
+    `LeftFactored (leftFactor g)` is false in general (`C09_leftfactor_counterexample`, known finding
+    `C09-leftfactor-residual`); what holds is `C09_leftfactoring_uniformHeads` / `…_leftFactored_of_unique`.
 -/
 
 /-! ## EliminateLeftRecursion and LeftFactor post-conditions
@@ -247,6 +249,20 @@ theorem C09_leftrecursion_noLeftRecursion (g g' : G) (hv : Valid g) (h : elimLef
     NoLeftRecursion g' :=
   AlgoVerif.C08.C09_leftrec_noLeftRecursion g g' hv h
 
+/-- the result of `EliminateLeftRecursion` passes `Verify()` when `L(G) ≠ ∅` -/
+theorem C09_leftrecursion_valid (g g' : G) (hv : Valid g) (hl : ∃ w, Language g w) (h : elimLeftRec g = .ok g') :
+    Valid g' :=
+  elimLeftRec_valid h hv hl
+
+/-- non-vacuity: the D14 grammar; the result has no left recursion and is valid -/
+example : (elimLeftRec
+      { terms := ["a", "b", "c", "d"]
+        nonterms := ["S", "A"]
+        prods := [{ head := "S", body := [.nonterm "A", .term "a"] }, { head := "S", body := [.term "b"] },
+                  { head := "A", body := [.nonterm "S", .term "c"] }, { head := "A", body := [.term "d"] }]
+        start := "S" }).map (fun g' => (noLeftRecB g', validB g')) = .ok (true, true) := by
+  decide
+
 /-- What `LeftFactor` guarantees unconditionally: for every non-terminal of the result either no alternative
 shares its first symbol with another alternative, or every alternative does (the second case is exactly the
 known finding `C09-leftfactor-residual`). -/
@@ -256,6 +272,15 @@ theorem C09_leftfactoring_uniformHeads (g g' : G) (h : leftFactor g = .ok g') : 
 /-- The result of `LeftFactor` passes `Verify()`. -/
 theorem C09_leftfactoring_valid (g g' : G) (hv : Valid g) (h : leftFactor g = .ok g') : Valid g' :=
   AlgoVerif.C08.C09_leftfactor_valid hv h
+
+/-- non-vacuity: two rounds of factoring end in a left-factored, valid grammar -/
+example : (leftFactor
+      { terms := ["a", "b", "c", "d"]
+        nonterms := ["S"]
+        prods := [{ head := "S", body := [.term "a", .term "b", .term "b"] }, { head := "S", body := [.term "a", .term "b", .term "c"] },
+                  { head := "S", body := [.term "a", .term "d"] }, { head := "S", body := [.term "c"] }]
+        start := "S" }).map (fun g' => (leftFactoredB g', validB g')) = .ok (true, true) := by
+  decide
 
 /-- The result of `LeftFactor` is left-factored whenever every head keeps an alternative that shares its first
 symbol with no other (the situation `LeftFactor` is written for). -/
